@@ -144,8 +144,15 @@ def r4(F, rep):
         raise AnalysisBroken("only %d schedule-state updates found in the restraint classes" % n)
 
 
+def r5(F, rep):
+    from . import mirror
+    mirror.check(F, rep, "C06-R5", lambda f: f.cls == "colvarbias_restraint_harmonic_walls" or f.q == "colvar::parse_legacy_wall_params", 6,
+                 "the harmonic-walls restraint (lower/upper walls, their flags and force constants)")
+
+
 def run(F, rep, tier):
     r1(F, rep)
     r2(F, rep)
     r3(F, rep)
     r4(F, rep)
+    r5(F, rep)
